@@ -12,6 +12,10 @@ Theorem C06_transmitted : C06_transmitted_statement.
 Proof. exact ParamFacts.C06_transmitted. Qed.
 Print Assumptions C06_transmitted.
 
+Theorem C06_bounds : C06_bounds_statement.
+Proof. exact ParamFacts.C06_bounds. Qed.
+Print Assumptions C06_bounds.
+
 (* the D6 corner: requested value equals the held value, which is itself outside the bounds *)
 Example C06_nonvacuous :
   let t := mkTriple 10 20 30 in
